@@ -953,8 +953,16 @@ func (vc *VC) mapWritesInLoop(hdr *ssa.BasicBlock, r *ssa.Range) (ins, del bool)
 				}
 				if sp == nil || len(sp.Modifies) > 0 {
 					if sp != nil {
+						// only indexed locations whose base is not a ghost variable can denote entries of a Go map
 						txt := ""
 						for _, m := range sp.Modifies {
+							if ix, ok := m.(*EIndex); ok {
+								if id, ok := ix.X.(*EIdent); ok {
+									if _, isGhost := vc.w.ghosts[id.Name]; isGhost {
+										continue
+									}
+								}
+							}
 							txt += exprString(m) + ";"
 						}
 						if !strings.Contains(txt, "[") {
